@@ -2,7 +2,7 @@
    Only statements; proofs are in Proofs/Cost.v.  The models (Model/Cost.v) log every modelled
    allocation: Make sz rem = make([]T, k) of sz bytes requested when rem input bytes were left,
    Grow sz = growth of a buffer driven by bytes that actually arrived (io.ReadAll, append). *)
-From WI Require Import Lib.Base Lib.Info Model.Base64 Model.Cost Model.CostPgp Proofs.Cost Proofs.CostPgp Proofs.CostArmor.
+From WI Require Import Lib.Base Lib.Info Model.Base64 Model.Cost Model.CostPgp Model.CostArmorVariant Proofs.Cost Proofs.CostPgp Proofs.CostArmor Proofs.CostArmorVariant.
 Open Scope N_scope.
 
 (* ---- at most the first 128 MB of any input are read, also of an endless one ---- *)
@@ -266,3 +266,38 @@ Theorem C08_rpm_witness_refused_by_guard :
   log_trusting (snd (rpm_file rpm_witness)) = false.
 Proof. exact rpm_witness_guarded. Qed.
 Print Assumptions C08_rpm_witness_refused_by_guard.
+
+(* ---- WHAT-IF variants of the armor header loop (Model/CostArmorVariant.v) - not repository code.
+   armor_headers_v HvRepaired is the repository's loop (first theorem); the two others differ from it
+   in one statement each and allocate beyond every linear bound, on inputs on which the repository's
+   loop stays below 106 n + 128. ---- *)
+Theorem C08_armor_variant_repaired_is_model : forall f cont curlen hs r,
+  armor_headers_v HvRepaired f cont curlen hs r = armor_headers f cont curlen hs r.
+Proof. exact armor_headers_v_repaired. Qed.
+Print Assumptions C08_armor_variant_repaired_is_model.
+
+(* the loop before repair C08-A1 (p.Header[lastKey] += string(line) per piece of a long line):
+   one header line of 100 (k + 1) octets costs at least 50 k^2 *)
+Theorem C08_armor_before_repair_refuted : forall K C, exists r,
+  bytes_ok r = true /\
+  K * lenN r + C < cost_of (armor_headers_v HvPreRepair (S (length r)) false 0 (mk_hs [] 0) r) /\
+  cost_of (armor_headers (S (length r)) false 0 (mk_hs [] 0) r) <= 106 * lenN r + 128.
+Proof. exact pre_repair_superlinear. Qed.
+Print Assumptions C08_armor_before_repair_refuted.
+
+(* the repaired loop without lastValue.Reset() between header lines: k consecutive long lines (154
+   octets each) cost at least 75 k^2 *)
+Theorem C08_armor_without_reset_refuted : forall K C, exists r,
+  bytes_ok r = true /\
+  K * lenN r + C < cost_of (armor_headers_v HvNoReset (S (length r)) false 0 (mk_hs [] 0) r) /\
+  cost_of (armor_headers (S (length r)) false 0 (mk_hs [] 0) r) <= 106 * lenN r + 128.
+Proof. exact no_reset_superlinear. Qed.
+Print Assumptions C08_armor_without_reset_refuted.
+
+(* computed, through the BEGIN line: twice the input, 3.98 and 3.79 times the allocation *)
+Example C08_armor_before_repair_witness :
+  cost_of (armor_open_v HvPreRepair (w_pre 100)) = 515349 /\
+  cost_of (armor_open_v HvPreRepair (w_pre 201)) = 2050246 /\
+  cost_of (armor_open_v HvRepaired (w_pre 100)) = 16578 /\
+  cost_of (armor_open_v HvRepaired (w_pre 201)) = 48789.
+Proof. exact pre_repair_witness. Qed.
